@@ -4,7 +4,8 @@ from harness import worlds, ndefflow
 PROPERTY = "C01"
 
 
-def t2(sx, S, prefix, rsv, oldlens, lens, long, nxp=None, rsv_on_len=False, plen=(), concrete=False):
+def t2(sx, S, prefix, rsv, oldlens, lens, long, nxp=None, rsv_on_len=False, plen=(), concrete=False,
+       again=None):
     oldlen = sx.pick("oldlen", oldlens)
     w = worlds.T2World(sx, S, prefix, [tuple(r) for r in rsv], oldlen,
                        old_lt_80=long, nxp=nxp, rsv_on_len=rsv_on_len, plen=plen,
@@ -16,11 +17,13 @@ def t2(sx, S, prefix, rsv, oldlens, lens, long, nxp=None, rsv_on_len=False, plen
     if nxp is not None:
         sx.reach("nxp_vendor_class")
     w.long_trick = long
+    w.again = again
     n = sx.pick("n", [x for x in lens_for(w.cap, lens)])
     return ndefflow.roundtrip(sx, w, n)
 
 
-def t1(sx, hr, size, prefix, rsv, oldlens, lens, long, rsv_on_len=False, plen=(), concrete=False):
+def t1(sx, hr, size, prefix, rsv, oldlens, lens, long, rsv_on_len=False, plen=(), concrete=False,
+       again=None):
     oldlen = sx.pick("oldlen", oldlens)
     w = worlds.T1World(sx, tuple(hr), size, prefix, [tuple(r) for r in rsv], oldlen,
                        old_lt_80=long, phys=512 if size == 296 else None,
@@ -29,26 +32,33 @@ def t1(sx, hr, size, prefix, rsv, oldlens, lens, long, rsv_on_len=False, plen=()
     if w.hdr_rsv:
         w.kind += "+rsv-in-tlv-header"
     w.long_trick = long
+    w.again = again
     n = sx.pick("n", [x for x in lens_for(w.cap, lens)])
     return ndefflow.roundtrip(sx, w, n)
 
 
-def t3(sx, nbr, nbw, nmaxb, oldlens, lens, emulated, ic_code=0xEE, concrete=False):
+def t3(sx, nbr, nbw, nmaxb, oldlens, lens, emulated, ic_code=0xEE, concrete=False, again=None):
     oldlen = sx.pick("oldlen", [o for o in oldlens if o <= nmaxb * 16])
     w = worlds.T3World(sx, nbr, nbw, nmaxb, oldlen, emulated=emulated, ic_code=ic_code,
                        fill=0x21 if concrete else None)
     w.concrete_msg = concrete
+    w.again = again
+    if again is not None:
+        w.long_trick = True
     if ic_code != 0xEE:
         sx.reach("felica_vendor_class")
     n = sx.pick("n", [x for x in lens_for(w.cap, lens)])
     return ndefflow.roundtrip(sx, w, n)
 
 
-def t4(sx, ver, mle, mlc, mfs, oldlens, lens, typ, fsci, aid_v=2):
+def t4(sx, ver, mle, mlc, mfs, oldlens, lens, typ, fsci, aid_v=2, again=None):
     oldlen = sx.pick("oldlen", oldlens)
     mle = sx.int("mle", mle[0], mle[1])
     mlc = sx.int("mlc", mlc[0], mlc[1])
     w = worlds.T4World(sx, ver, mle, mlc, mfs, oldlen, typ=typ, fsci=fsci, aid_v=aid_v)
+    w.again = again
+    if again is not None:
+        w.long_trick = True
     n = sx.pick("n", [x for x in lens_for(w.cap, lens)])
     return ndefflow.roundtrip(sx, w, n)
 
@@ -160,6 +170,29 @@ def partitions(tier):
         parts.append(dict(name="t2:%s:long" % nxp, fn="t2",
                           params=dict(S=0, prefix="L", rsv=[rsv], oldlens=[0],
                                       lens=[9, 254, 255, "cap-1", "cap", "cap+1"], long=True, nxp=nxp)))
+    # ---- two writes through the same NDEF object, then a fresh read
+    parts.append(dict(name="t2:48:LM:twice", fn="t2",
+                      params=dict(S=48, prefix="LM", rsv=[(64, 2), (36, 8)], oldlens=[3], lens=[0, 9, "cap"],
+                                  long=True, again=[0, 2, 12])))
+    parts.append(dict(name="t2:496:NM:twice", fn="t2",
+                      params=dict(S=496, prefix="NM", rsv=[(320, 8)], oldlens=[0], lens=[5, 254, 255, 300],
+                                  long=True, again=[3, 254, 255, 256])))
+    parts.append(dict(name="t1:dynamic:twice", fn="t1",
+                      params=dict(hr=(0x12, 0x00), size=512, prefix="NLM", rsv=[(122, 6), (200, 9)],
+                                  oldlens=[5], lens=[4, 254, 300], long=True, again=[3, 255, 260])))
+    parts.append(dict(name="t1:static:twice", fn="t1",
+                      params=dict(hr=(0x11, 0x48), size=120, prefix="M", rsv=[(40, 8)],
+                                  oldlens=[5], lens=[0, 30, "cap"], long=True, again=[0, 7, 50])))
+    parts.append(dict(name="t3:4:3:5:twice", fn="t3",
+                      params=dict(nbr=4, nbw=3, nmaxb=5, oldlens=[17], lens=[0, 16, 33, "cap"], emulated=False,
+                                  again=[0, 15, 17, 80])))
+    parts.append(dict(name="t3emu:4:3:5:twice", fn="t3",
+                      params=dict(nbr=4, nbw=3, nmaxb=5, oldlens=[17], lens=[16, 33], emulated=True,
+                                  again=[0, 17, 80])))
+    for ver in (0x20, 0x30):
+        parts.append(dict(name="t4:%02x:twice" % ver, fn="t4",
+                          params=dict(ver=ver, mle=[15, 15], mlc=[1, 9], mfs=24, oldlens=[3],
+                                      lens=[0, 7, "cap"], typ="A", fsci=8, again=[0, 5, 20])))
     # ---- Type 1
     T1 = [("topaz", (0x11, 0x48), 120, "", []),
           ("static", (0x11, 0x00), 120, "N", []),
@@ -254,7 +287,7 @@ def partitions(tier):
     return parts
 
 
-MUST_REACH = ["oversize_rejected", "empty_message_written", "three_byte_length",
+MUST_REACH = ["second_write_on_same_object", "second_write_changes_length_format", "oversize_rejected", "empty_message_written", "three_byte_length",
               "message_fills_capacity", "rsv_inside_message", "rsv_before_ndef_tlv",
               "rsv_beyond_data_area", "rsv_at_end_of_data_area", "rsv_after_message",
               "t1_message_spans_reserved_blocks", "nxp_vendor_class", "felica_vendor_class"]
